@@ -549,7 +549,7 @@ pub fn answer_find(req: &str) -> String {
         "loop" => oracle_loop(&lines),
         "pool" => oracle_pool(&lines),
         "inputflag" => oracle_inputflag(&lines),
-        _ => "bad-kind".into(),
+        other => crate::find2::answer_kind(other, &lines, &replies),
     }));
     match r {
         Ok(s) => s,
